@@ -121,10 +121,11 @@ func (a *astConv) stmt(s *tree.Statement) Stmt {
 	switch {
 	case s.LineStatement != nil:
 		ls := s.LineStatement
+		st := Stmt{K: "line", Text: partsOfTree(ls.Text), Tags: ls.Tags}
 		if ls.Condition != nil {
-			a.bad = append(a.bad, "line condition on a plain line")
+			st.Cond = exprOfTree(ls.Condition)
 		}
-		return Stmt{K: "line", Text: partsOfTree(ls.Text), Tags: ls.Tags}
+		return st
 	case s.ShortcutOptionStatement != nil:
 		st := Stmt{K: "opts"}
 		for _, o := range s.ShortcutOptionStatement.Options {
@@ -240,7 +241,11 @@ func (c *Case) nestedBody(id int) []any {
 	for _, s := range c.body(id) {
 		switch s.K {
 		case "line":
-			res = append(res, map[string]any{"k": "line", "text": normParts(s.Text), "tags": nonNilTags(s.Tags)})
+			m := map[string]any{"k": "line", "text": normParts(s.Text), "tags": nonNilTags(s.Tags)}
+			if s.Cond != nil {
+				m["cond"] = s.Cond
+			}
+			res = append(res, m)
 		case "opts":
 			var opts []any
 			for _, o := range s.Opts {
@@ -301,6 +306,7 @@ func collectVars(c *Case) []string {
 				out = append(out, s.Var)
 			}
 			collectVarsExpr(s.E, seen, &out)
+			collectVarsExpr(s.Cond, seen, &out)
 			for _, p := range s.Text {
 				collectVarsExpr(p.E, seen, &out)
 			}
